@@ -77,7 +77,7 @@ def _tlc(args, env=None, timeout=3000, heap=None, cwd=SPEC, deque=False):
         cmd.append("-Xmx" + heap)
     if deque:
         cmd.append("-Dtlc2.tool.queue.IStateQueue=StateDeque")
-    cmd += ["-cp", TLA_CP, "tlc2.TLC"] + args
+    cmd += ["-cp", TLA_CP, "tlc2.TLC", "-noGenerateSpecTE"] + args
     t0 = time.time()
     try:
         r = subprocess.run(cmd, cwd=cwd, env=e, stdout=subprocess.PIPE, stderr=subprocess.STDOUT,
